@@ -1202,6 +1202,12 @@ func (e *Engine) Execute(tr core.Trace, ctx *core.Ctx) {
 		x.promptLab(t)
 		return
 	}
+	if len(t.RegLab) > 0 {
+		curTrace = t
+		x := &exec{ctx: ctx, t: t, tr: newTracker()}
+		x.regLab(t)
+		return
+	}
 	if t.Desc == nil {
 		return
 	}
